@@ -133,6 +133,7 @@ func solverKind() string {
 
 type depthLimit struct{}
 
+var dbgSlow = os.Getenv("GOITSYM_SLOW") != ""
 var dbgTrails *os.File
 var dbgMu sync.Mutex
 
@@ -166,8 +167,12 @@ func (w *worker) recordPanic(msg string) {
 func (w *worker) explore(res *HarnessResult, deadline time.Time, sampleEvery int) bool {
 	c := w.ctx
 	for {
+		tp := time.Now()
 		out := w.runPath(0)
 		c.stats.Paths++
+		if dbgSlow && time.Since(tp) > 4*time.Second && c.model != nil {
+			fmt.Fprintf(os.Stderr, "SLOW PATH %.1fs steps? pc=%d outcome=%s inputs=%s choices=%v\n", time.Since(tp).Seconds(), len(c.pc), out, showInputs(c.concretize(c.model)), c.hchoices)
+		}
 		if dbgTrails != nil {
 			sig := ""
 			for _, d := range c.trail {
